@@ -114,6 +114,9 @@ func runCase(a *Args, fn func(c *Ctx), i int, wantSample bool) *Ctx {
 
 // DrvMain is the entry point of the child binary.
 func DrvMain(a *Args) int {
+	if r := os.Getenv("VERIF_ROOT"); r != "" {
+		ReplayDir = filepath.Join(r, "replays")
+	}
 	fn, ok := CaseFns[a.Prop]
 	if !ok {
 		fmt.Fprintf(os.Stderr, "unknown property %s\n", a.Prop)
